@@ -277,6 +277,45 @@ def random_history(rng: random.Random, idx: int, disk_root: Path, length: int) -
     return trace
 
 
+def targeted_histories(disk_root: Path) -> list[dict]:
+    """Deterministic histories around one mutation: call, mutate (replace / update_bound / update_defaults of an upstream
+    function that is cached or NOT cached itself), the same call again, then the upstream output."""
+    def fn(name, params, outs, cache, dflt=None):
+        return {"name": name, "params": params, "outputs": outs, "defaults": dflt or [], "bound": [], "has_ms": False,
+                "ms": {"ins": [], "outs": []}, "internal": [], "cache": cache, "retnone": False}
+    out = []
+    idx = 0
+    for ca, cb in ((False, True), (True, True), (True, False)):
+        for kind in ("replace", "update_bound", "update_defaults"):
+            for ctype in CACHE_TYPES:
+                idx += 1
+                tdesc = {"funcs": [fn("fa", ["x", "z"], ["a"], ca, [["z", {"f": "@d_z", "a": []}]]),
+                                   fn("fb", ["a", "y"], ["b"], cb)]}
+                ddir = str(disk_root / f"t{idx}") if ctype == "disk" else None
+                ckw = cache_kwargs_for(ctype, 0, False, ddir)
+                pc, pu = make_twins(tdesc, ctype, ckw)
+                call_b = {"op": "call", "out": "b", "kw": [["x", k_value("x", 1)], ["y", k_value("y", 1)]], "mode": "call"}
+                call_a = {"op": "call", "out": "a", "kw": [["x", k_value("x", 1)]], "mode": "call"}
+                blank = {"f": "", "p": "", "v": {"f": "", "a": []}, "func": pcall.BLANK_FUNC}
+                if kind == "replace":
+                    new = pcall.func_state(pu, "fa", ["a"], ca, base=tdesc["funcs"][0])
+                    new["retnone"] = True
+                    mut = {"op": "mutate", "kind": "replace", **blank, "f": "fa", "func": new}
+                elif kind == "update_bound":
+                    mut = {"op": "mutate", "kind": "update_bound", **blank, "f": "fa", "p": "x", "v": {"f": "@bnd_x", "a": []}}
+                else:
+                    mut = {"op": "mutate", "kind": "update_defaults", **blank, "p": "z", "v": {"f": "@d2_z", "a": []}}
+                script = [call_b, mut, dict(call_b), call_a]
+                trace = {"desc": copy.deepcopy(tdesc), "ev": [], "script": script, "cache_type": ctype, "cache_kwargs": ckw,
+                         "outcomes": []}
+                for op in script:
+                    part = run_history(tdesc, ctype, ckw, [op], twins=(pc, pu))
+                    trace["ev"] += part["ev"]
+                    trace["outcomes"] += part["outcomes"]
+                out.append(trace)
+    return out
+
+
 def same_call(a: dict | None, b: dict | None) -> bool:
     return bool(a and b and a["op"] == "call" == b["op"] and (a["out"], a["mode"]) == (b["out"], b["mode"])
                 and sorted(map(json.dumps, a["kw"])) == sorted(map(json.dumps, b["kw"])))
@@ -507,6 +546,7 @@ def run(ctx: Ctx) -> None:
     for idx in range(nrand):
         build.LOG.clear()
         traces.append(random_history(rng, idx, disk_root, rng.randint(4, 12)))
+    traces += targeted_histories(disk_root)
     traces += map_histories(ctx, rng)
     count_cases(ctx, traces)
     ctx.sample({"desc": traces[0]["desc"], "cache_type": traces[0]["cache_type"], "script": traces[0]["script"]})
